@@ -492,7 +492,18 @@ class Session(object):
                                        "time_s": round(o.time, 4), "where": o.where, "clause": o.text, "detail": o.detail})
         res["status"] = "proved" if allok else "failed"
         lost = [n for n in res["notes"] if n.startswith("hint pattern matches no statement")]
+        # a proof SCRIPT (loop contracts, hints, ghost code) is keyed to locals and loop ordinals; a contract without one is checked by plain
+        # symbolic execution of whatever the body is, so its failures do not depend on the shape the contract was written against
+        has_script = any(c.get(k) for k in ("loops", "asserts", "ghost_after", "ghost_before", "ghost_entry", "ghost_exit"))
         drift = None if allok else self.shape_drift(key, c["fdef"])
+        if drift and not has_script:
+            # ... unless the drift itself needs a script the contract does not have: a new / other loop (no invariant for it), or a new local whose
+            # name the contract's type table already binds to something else
+            rec = self._shapes.get(key) or {}
+            cur = self.shape_of(c["fdef"])
+            added = set(cur["names"]) - set(rec.get("names", []))
+            if cur["loops"] == rec.get("loops") and not (added & set(c.get("types", {}))):
+                drift = None
         if drift:
             # invariants, measures and hints name this function's locals and loops; with other locals / loops the recorded proof
             # script is not a proof attempt for THIS code, so its failure says nothing about the property (the bounded check decides)
